@@ -39,6 +39,20 @@ checks.update({
    note="M4 (harness typer from the documented rules) trusted; AstVm::eval for value types.",
    technique="bounded exhaustive enumeration of programs and their single-point type mutations against a reference type checker"),
 })
+checks.update({
+ "C12": dict(level=MC, ref="DESIGN.md §4 C12",
+   text="Every instruction signature up to the stated length over the full letter/attribute alphabet (plus 16-20 parameter signatures, padding anywhere) is declared in a user mapfile; for each, every single boundary-value / register deviation of the argument list is compiled by the real ANM/MSG/timeline pipeline; the written blob, register mask and arg0 are compared with the M7 byte model, the binary is decompiled and the printed values and recompiled bytes compared; out-of-range values, bad strings and misplaced registers must be diagnosed; invalid signatures must be rejected; intrinsic bindings with padding at every position must place operands where the signature dictates.",
+   note="M7 (harness encoder model) and the harness's own ANM/MSG/timeline readers trusted; values that fit only under the other signedness are compared modulo 2^(8w) (signedness is display-only).",
+   technique="bounded exhaustive enumeration of signatures x argument lists against an independent encoder/decoder model, with decompile/recompile round trip"),
+ "C15": dict(level=MC, ref="DESIGN.md §4 C15",
+   text="Every Shift-JIS round-trippable character (7,517 incl. all JIS X 0208) at every block position, every length 0..300 around block/buffer boundaries, all pairs of special characters, furigana sequences and unencodable probes, under 17 user string encodings and the built-in text instructions of all 18 MSG games, END, STD/ANM/mission metadata; compiled and decompiled by the real pipeline; decompiled literal compared character for character and emitted bytes compared with an independent byte model; unencodable/oversize input must be an error.",
+   note="encoding_rs (also a dependency of truth) trusted for Shift-JIS; harness string-literal scanner and byte model trusted.",
+   technique="exhaustive enumeration of the character repertoire x string shapes x encodings with round-trip and byte-model oracles"),
+ "C17": dict(level=MC, ref="DESIGN.md §4 C17",
+   text="All 65,536 RGB565 and ARGB4444 values, all 256 GRAY8 values and ARGB8888 channel sweeps are embedded in hand-assembled ANM files, extracted to PNG by the real CLI and re-imported; texture dimensions x offsets grids, every ordering of up to 3 image sources (ANM files / directories / pragmas) with overlapping paths, duplicate-path layouts and verbatim copies from ANM sources are enumerated; the output THTX bytes are read by the harness's own reader and compared with the expectation.",
+   note="Harness ANM writer/reader trusted; the real CLI runs as a subprocess on real files.",
+   technique="exhaustive pixel-value enumeration and bounded exhaustive enumeration of source orderings / sizes / offsets through the real CLI"),
+})
 pending = {}
 def main():
     try:
